@@ -736,7 +736,10 @@ def make(rng, cases, n, max_prog=90):
             # every object's description last: it is what lets the driver recognise a wait target that coincides with the
             # elapsed time up to float dust (lang.wait_dust) after an edit of a duration
             descr = [("OSDescr", r) for r in sorted(sh.S)] + [("OEDescr", r) for r in sorted(sh.E)] + [("OBDescr", r) for r in sorted(sh.B)]
-            new += t + obs + [o for o in descr[:12] if o not in obs]
+            ob = list(obs)
+            if rng.random() < 0.6:
+                rng.shuffle(ob)          # the order of the queries after an edit matters to anything that is invalidated by a query
+            new += t + ob + [o for o in descr[:12] if o not in obs]
         if not added:
             continue
         out.append({"prog": new, "kind": "followup", "followup": True, "base_kind": c.get("kind"), "n_base": len(prog),
